@@ -63,6 +63,8 @@ impl<'de> Deserialize<'de> for Doc {
 pub enum Case {
     C10R(crate::prop::c10::ReaderCase),
     C10W(crate::prop::c10::WriterCase),
+    C09(crate::prop::c09::AgreeCase),
+    C09B(crate::prop::c09::BorrowCase),
 }
 
 #[derive(Clone, Debug, Serialize, Deserialize)]
